@@ -42,6 +42,8 @@ type vfsState struct {
 	cwd     string
 	ops     []string
 	faults  int  // remaining injected faults
+	limited bool // a file size limit (RLIMIT_FSIZE: "disk full") is in force
+	limit   int
 	crashOn bool // crash points enabled
 	crashed bool
 	faulted []string
@@ -219,6 +221,7 @@ const (
 	eBADF   = 9
 	eACCES  = 13
 	eNOTDIR = 20
+	eFBIG   = 27
 )
 
 func newOSFile(fr *frame, path string, h *vhandle) value {
@@ -417,6 +420,21 @@ func init() {
 			n := h.node
 			if h.flag&oAPPEND != 0 {
 				h.off = len(n.data)
+			}
+			if vfs.limited && h.off+len(b) > vfs.limit {
+				// RLIMIT_FSIZE semantics: the part that fits is written, then the write fails (EFBIG)
+				used("file size limit (model of RLIMIT_FSIZE: a write that would grow a file beyond the limit is cut there and fails)")
+				fit := vfs.limit - h.off
+				if fit < 0 {
+					fit = 0
+				}
+				if fit > 0 {
+					lim := vfs.limited
+					vfs.limited = false
+					externals["(*os.File).Write"](fr, []value{a[0], b[:fit]})
+					vfs.limited = lim
+				}
+				return tuple{fit, pathError(fr, "write", h.path, eFBIG)}
 			}
 			for len(n.data) < h.off {
 				n.data = append(n.data, uint8(0))
@@ -633,6 +651,11 @@ func init() {
 		}
 		sort.Strings(names)
 		return strings.Join(names, "\n")
+	}
+	intrinsics["verifFileSizeLimit"] = func(fr *frame, a []value) value {
+		n := int(asInt64(a[0]))
+		vfs.limited, vfs.limit = n >= 0, n
+		return nil
 	}
 	intrinsics["verifFaults"] = func(fr *frame, a []value) value {
 		vfs.faults = int(asInt64(a[0]))
